@@ -361,7 +361,13 @@ ASTNode *PrimaryExpressionParser::parsePrimary() {
             // '>' までスキップして、その後に '(' があるかチェック
             int depth = 1;
             bool is_function_call = false;
+            // a type argument list is short: the look-ahead reads at most 256
+            // tokens, so a long chain `x < x < x < ...` is parsed in linear time
+            int scanned_tokens = 0;
             while (depth > 0 && !parser_->isAtEnd()) {
+                if (++scanned_tokens > 256) {
+                    break;
+                }
                 // only tokens that can appear in a type argument list may occur
                 // before the closing '>'; anything else: '<' is the comparison
                 if (parser_->check(TokenType::TOK_SEMICOLON) ||
